@@ -735,7 +735,7 @@ func TestCheck(t *testing.T) {
 	}
 	if !r.Quick() {
 		four := apiSeqs(4)
-		for k := 0; k < 3000; k++ {
+		for k := 0; k < 15000; k++ {
 			api := four[rng.Intn(len(four))]
 			base = append(base, scenario{Connack: "ok", Acks: acks[rng.Intn(len(acks))], API: api, Terminal: terms[rng.Intn(4)], Resume: rng.Intn(2) == 0, Workers: rng.Intn(9)})
 		}
